@@ -231,8 +231,9 @@ def handoff_check(fs, step, b_pyi, stats):
       continue
     stats["handoff_probes"] = stats.get("handoff_probes", 0) + 1
     try:
-      ng = typenorm.norm(got, (mod,), typenorm.import_aliases(binfo.get("imports", [])))
-      nw = typenorm.norm(want, (mod,), typenorm.import_aliases(ainfo.get("imports", [])))
+      anc = typenorm.class_ancestors(ainfo["classes"])
+      ng = typenorm.norm(got, (mod,), typenorm.import_aliases(binfo.get("imports", [])), anc)
+      nw = typenorm.norm(want, (mod,), typenorm.import_aliases(ainfo.get("imports", [])), anc)
     except SyntaxError:
       continue
     if ng != nw:
